@@ -330,8 +330,8 @@ func VerifC15_Proposal() {
 	k := sym.Choice("certificates", 3)
 	v := newVerifInputs(k)
 	hl := sym.Choice("head-lookback", 3)
-	cpl := 1 + sym.Choice("chain-proposed-length-minus-1", 4)
-	if cpl == 4 {
+	cpl := 1 + sym.Choice("chain-proposed-length-minus-1", 3+sym.Tier())
+	if cpl == 3+sym.Tier() {
 		cpl = 1000 // beyond the protocol maximum
 	}
 	v.in.manifest.EC.HeadLookback = hl
@@ -342,7 +342,14 @@ func VerifC15_Proposal() {
 	sym.Assume(sym.And(nowOff >= lo, nowOff <= hi))
 	now := time.Unix(1_600_000_000, 0).Add(time.Duration(nowOff))
 	v.clk.Set(now)
-	instance := v.initial + uint64(k)
+	// the instance the node is in: normally the next one, but its store may already
+	// be ahead (certificates fetched from peers while it was still working)
+	maxBehind := k
+	if sym.Tier() == 0 {
+		maxBehind = min(k, 1)
+	}
+	behind := sym.Choice("store-ahead-by", maxBehind+1)
+	instance := v.initial + uint64(k-behind)
 
 	supp, chain, err := v.in.GetProposal(ctx, instance)
 	if !v.determined(instance + 1) {
@@ -356,8 +363,11 @@ func VerifC15_Proposal() {
 	}
 	sym.Cover("proposed")
 	baseIdx := 0
-	if k > 0 {
-		baseIdx = v.heads[k-1]
+	if k-behind > 0 {
+		baseIdx = v.heads[k-behind-1]
+	}
+	if behind > 0 {
+		sym.Cover("store-ahead")
 	}
 	var suffix []int
 	descends := false
